@@ -1463,11 +1463,16 @@ func (e *compiledFunctionLiteral) compile() (prg *Program, name unistring.String
 				}
 				if firstForwardRef == -1 {
 					s.bindings[i].emitGetAt(markGet)
+					s.bindings[i].emitInitP()
+					e.c.p.code[mark] = jdefP(len(e.c.p.code) - mark)
 				} else {
+					// The argument is still on the stack and the binding is uninitialised: a supplied argument
+					// has to be stored as well (jdef keeps the value and jumps to the initialisation).
 					e.c.p.code[markGet] = loadStackLex(-i - 1)
+					initPos := len(e.c.p.code)
+					s.bindings[i].emitInitP()
+					e.c.p.code[mark] = jdef(initPos - mark)
 				}
-				s.bindings[i].emitInitP()
-				e.c.p.code[mark] = jdefP(len(e.c.p.code) - mark)
 			} else {
 				if firstForwardRef == -1 && s.bindings[i].useCount() > 0 {
 					firstForwardRef = i
@@ -1565,6 +1570,11 @@ func (e *compiledFunctionLiteral) compile() (prg *Program, name unistring.String
 			e.c.throwSyntaxError(e.offset, "'arguments' is not allowed in class field initializer or static initialization block")
 		}
 		b, created := s.bindNameLexical("arguments", false, 0)
+		if firstForwardRef != -1 && !b.inStash {
+			// The arguments stay on the stack until the body is entered (enterFunc1): the parameter scope has no
+			// stack slots of its own, all its bindings, including 'arguments', live in the stash.
+			b.moveToStash()
+		}
 		if created || b.isVar {
 			if !s.argsInStash {
 				s.moveArgsToStash()
@@ -1577,7 +1587,12 @@ func (e *compiledFunctionLiteral) compile() (prg *Program, name unistring.String
 			pos := preambleLen - 2
 			delta += 2
 			if s.strict || hasPatterns || hasInits {
-				code[pos] = createArgsUnmapped(paramsCount)
+				if firstForwardRef != -1 {
+					// enterFunc1 leaves the arguments on the stack (they are not in the stash yet)
+					code[pos] = createArgsUnmappedStack(paramsCount)
+				} else {
+					code[pos] = createArgsUnmapped(paramsCount)
+				}
 			} else {
 				code[pos] = createArgsMapped(paramsCount)
 			}
